@@ -51,6 +51,18 @@ func C10(c *core.Ctx) {
 	emit(c, a.QualifiedResolution())
 	ruleDedup(c)
 	ruleDefsAsWritten(c)
+	// a chain of two references is as transparent as one: a property that refers to a definition whose whole content is a $ref to the
+	// real definition gets that definition's type and checks
+	for _, sp := range []*fam.Spec{{Kind: "string", Kw: []string{"minLength"}}, {Kind: "integer", Kw: []string{"maximum"}},
+		{Kind: "object", Props: []*fam.Prop{{Label: "q", Spec: &fam.Spec{Kind: "string"}, Required: true}}}} {
+		for _, req := range []bool{true, false} {
+			d := sp.Clone()
+			d.Ref, d.RefVia = "$defs", true
+			mb := member{name: fmt.Sprintf("reference to a definition that is only a reference (%s) required=%v", sp.String(), req), cfg: gen.DefaultConfig(), tag: "definition that is only a $ref",
+				root: &fam.Spec{Kind: "object", Props: []*fam.Prop{{Label: "p", Spec: d, Required: req}}}}
+			runMember(c, mb, ruleSet("A-MAP", "A-REJ", "A-REQ", "A-NOEXTRA", "A-NILG"), 64, checkRoot)
+		}
+	}
 	// Engine A: the same oracles that decide the inline forms decide the referenced forms ("replacing a reference by an inline copy of its
 	// target does not change which documents are accepted"): value families at the $defs / definitions positions, a definition referenced twice
 	// (one shared type), and the cross-file forms.
